@@ -33,6 +33,52 @@ theorem series_schema_validate_caller_untouched {s s' : St} (hex : Exec alias_se
 theorem index_validate_caller_untouched {s s' : St} (hex : Exec alias_indexValidate s s') :
     ∀ r, r < s.next → s'.heap r = s.heap r := caller_untouched index_validate_safe hex
 
+theorem array_validate_caller_untouched {s s' : St} (hex : Exec alias_arrayValidate s s') :
+    ∀ r, r < s.next → s'.heap r = s.heap r := caller_untouched array_validate_safe hex
+
+theorem column_validate_caller_untouched {s s' : St} (hex : Exec alias_columnValidate s s') :
+    ∀ r, r < s.next → s'.heap r = s.heap r := caller_untouched column_validate_safe hex
+
+theorem multiindex_validate_caller_untouched {s s' : St} (hex : Exec alias_multiIndexValidate s s') :
+    ∀ r, r < s.next → s'.heap r = s.heap r := caller_untouched multiindex_validate_safe hex
+
+/-- the `inplace=False` entry points of the pandas API, as translated from the source on this run -/
+def entryPoints : List AStmt :=
+  [alias_dataFrameValidate, alias_arrayValidate, alias_columnValidate, alias_indexValidate,
+   alias_multiIndexValidate, alias_seriesSchemaValidate]
+
+theorem entry_points_safe : ∀ p ∈ entryPoints, isSafe p = true := by
+  intro p hp
+  simp only [entryPoints, List.mem_cons, List.mem_nil_iff, or_false] at hp
+  rcases hp with rfl | rfl | rfl | rfl | rfl | rfl
+  · exact dataframe_validate_safe
+  · exact array_validate_safe
+  · exact column_validate_safe
+  · exact index_validate_safe
+  · exact multiindex_validate_safe
+  · exact series_schema_validate_safe
+
+/-- **C04 (every history).** After any sequence of validate calls — any entry points, any number, any
+order, each started from an arbitrary binding of variables to the objects that exist (the same frame
+validated twice, a frame and one of its columns, …) — every object that existed before the first call
+is exactly as it was -/
+theorem any_history_of_validate_calls_caller_untouched {ps : List AStmt} (hps : ∀ p ∈ ps, p ∈ entryPoints)
+    {s s' : St} (hh : Hist ps s s') : ∀ r, r < s.next → s'.heap r = s.heap r :=
+  (hist_untouched hh (fun p hp => entry_points_safe p (hps p hp))).2
+
+/-- an entry point may also be iterated inside one call (a caller's loop): still accepted -/
+theorem iterated_validate_safe : ∀ p ∈ entryPoints, isSafe (.loop p) = true :=
+  fun p hp => isSafe_loop (entry_points_safe p hp)
+
+/-- any program that starts by writing through a parameter is rejected, whatever follows -/
+theorem write_through_parameter_rejected (v : Nat) (rest : AStmt) :
+    isSafe (.seq (.mutate v) rest) = false := mutate_param_rejected v rest
+
+/-- the history theorem is not vacuous: a two-call history of the translated `DataFrameSchema.validate`
+program shape exists for a simple accepted program -/
+example : ∃ s', Hist [.copy 0, .seq (.copy 0) (.mutate 0)] ⟨fun _ => 0, fun _ => 7, 1⟩ s' :=
+  ⟨_, .cons (fun _ => 0) (.copy 0 _) (.cons (fun _ => 0) (.seq (.copy 0 _) (.mutate 0 _ 9)) (.nil _))⟩
+
 /-- the analyser rejects the shape `IndexBackend.validate` had before the repair (a write through
 the parameter with no copy before it), and that shape does have an execution that changes the
 caller's object — so the obligations above are not vacuous -/
